@@ -226,6 +226,11 @@ Section Machine.
         (mkAst n rest (a_file s) (a_fl s) (walsz n) (n =? a_file s) false, true, limited, 1)
     end.
 
+  (** checkpointWithExecutor, right after execCheckpoint succeeded:
+      [if mode == CheckpointModeTruncate { exec.state.syncedToWALEnd = false }] *)
+  Definition toend_after_exec (m : mode) (toend : bool) : bool :=
+    match m with Truncate => false | Passive => toend end.
+
   (** checkpointWithExecutor(mode) when no application transaction is pinned
       and nothing is BUSY (ASSUMED SQLite behaviour, see [Proofs.v]):
       copy-before (and seal) sync everything that is pending; the checkpoint
@@ -236,17 +241,21 @@ Section Machine.
   Definition ck_free (m : mode) (s : ast) : outcome * (ast * Z) :=
     let '(s1, _, _, nf) := copy_chunk 0 s in
     let file' := match m with Passive => Z.max (a_file s1) b | Truncate => b end in
+    (* [syncedToWALEnd] is cleared by [toend_after_exec] right after the PRAGMA and then set
+       again by applySyncResult of the re-copy / boundary snapshot, whose sync ends at
+       offset walsz b in a file of file' slots *)
     (ORestarted, (mkAst b [] file' (a_fl s1) (walsz b) (b =? file') false, nf + 1)).
 
   (** the same call while an application read transaction is pinned open (ASSUMED
       SQLite behaviour): the checkpoint cannot backfill past the reader, so the
       seq bump does not restart the WAL but appends its [b] frames to the live
       generation, unsynced; a TRUNCATE attempt reports busy in its result row, not
-      as an error, and ends the same way. *)
+      as an error, and ends the same way - except that [syncedToWALEnd] stays
+      cleared, no sync result following on the not-restarted path. *)
   Definition ck_pinned (m : mode) (s : ast) : outcome * (ast * Z) :=
     let '(s1, _, _, nf) := copy_chunk 0 s in
     (ONotRestarted, (mkAst (a_synced s1) [b] (Z.max (a_file s1) (a_synced s1 + b)) (a_fl s1) (a_off s1)
-                           (a_toend s1) (a_first s1), nf)).
+                           (toend_after_exec m (a_toend s1)) (a_first s1), nf)).
 
   (** the executor state threaded through checkpointIfNeeded: machine state + files created *)
   Definition exec_t := mode -> ast * Z -> outcome * (ast * Z).
